@@ -101,6 +101,17 @@ class Program:
         if tag == "cref":
             v = self.const_value(t)
             return v
+        if tag == "phi" and body is not None:
+            pk = t[2]
+            if isinstance(pk, tuple) and len(pk) == 2 and isinstance(pk[1], tuple):
+                cut = next((i for i, e in enumerate(pk[1]) if isinstance(e, tuple) and e[0] == "dc"), None)
+                if cut is not None:
+                    # the payload of a merged enum value is the payload of the merge
+                    from .sym import sym_of as _so
+                    whole = ("phi", t[1], (pk[0], pk[1][:cut]))
+                    return self.simp(_so(body).project(whole, pk[1][cut:], None), body, _depth + 1)
+            g = self._phi_unwrap_or(t, body)
+            return g if g is not None else t
         if tag == "phi" or tag == "mutref" or tag == "mut":
             return t
         S = lambda x: self.simp(x, body, _depth + 1)
@@ -117,6 +128,9 @@ class Program:
                     return args[0]
                 if name in ("Borrow::borrow", "AsRef::as_ref") and len(args) == 1:
                     return args[0]
+                if name == "Option::unwrap_or" and len(args) == 2:
+                    # copied()/cloned()/as_ref() do not change the value the default replaces
+                    args = (_opt_transparent(args[0]), args[1])
                 if name == "Option::unwrap_or" and len(args) == 2 and args[1] == ("int", 0) and args[0][0] == "call" \
                         and args[0][1] == "usize::checked_sub":
                     return ("call", "usize::saturating_sub", args[0][2])
@@ -232,6 +246,40 @@ class Program:
         if tag == "repeat":
             return ("repeat", S(t[1]), t[2])
         return t
+
+    def _phi_unwrap_or(self, t, body):
+        """`match o { Some(x) => x, None => d }` (a two-way merge whose Some arm carries the payload of
+        the scrutinee) is o.unwrap_or(d)."""
+        memo = self.__dict__.setdefault("_phi_uo", {})
+        key = (body.key, t)
+        if key in memo:
+            return memo[key]
+        memo[key] = None            # also stops recursion through the facts below
+        if body.cfg.loop_of_header(t[1]) is not None:
+            return None
+        from .sym import sym_of as _sym_of
+        from .pred import lit_to_facts
+        s = _sym_of(body)
+        ins = s.phi_inputs(t)
+        if len(ins) != 2:
+            return None
+        arms = []
+        for p, v in ins.items():
+            facts = []
+            for lit in s.guards(p):
+                lit2 = (lit[0], self.simp(lit[1], body), lit[2]) + tuple(lit[3:])
+                facts.extend(lit_to_facts(lit2))
+            arms.append((p, self.simp(v, body), facts))
+        for (p1, v1, f1), (p2, v2, f2) in (arms, arms[::-1]):
+            for a, pol in f1:
+                if a[0] == "variant" and a[2] == "Some" and pol:
+                    o = a[1]
+                    none = any(b[0] == "variant" and b[1] == o and ((b[2] == "None") == q) for b, q in f2)
+                    if none and v1 == ("field", ("as", o, "Some"), "0"):
+                        r = self.simp(("call", "Option::unwrap_or", (o, v2)), body)
+                        memo[key] = r
+                        return r
+        return None
 
     # local Deref impl for Word is registered as an accessor under the call name
     # "Deref::deref" only when the receiver resolves to a crate impl; sym emits the
